@@ -14,7 +14,8 @@ for item in "$@"; do
     if [ -f "$D/demo.sh" ]; then sed "s#/tmp/seed-$ID#$WT#g" "$D/demo.sh" > /tmp/seedq-demo-$$.sh; timeout 900 sh /tmp/seedq-demo-$$.sh >/dev/null 2>&1; echo $?
     else t=$(ls "$D"/*.rs | head -1); n=$(basename $t .rs); cp $t $WT/rsass/tests/$n.rs; (cd $WT && timeout 1800 cargo test --offline -p rsass --test $n >/dev/null 2>&1); echo $?; rm -f $WT/rsass/tests/$n.rs; fi
   }
-  w=$(demo); git -C $WT stash -q; wo=$(demo); git -C $WT stash pop -q
+  # (no `git stash`: the stash ref is shared by all worktrees of /repo)
+  w=$(demo); git -C $WT checkout -q -- . ; wo=$(demo); git -C $WT apply "$D/patch.diff"
   out=$(VERIF_REPO=$WT timeout 3400 ./check $ID quick 2>&1); rc=$?
   v=$(echo "$out" | grep -c "^VIOLATION property=$ID")
   verdict="MISSED(rc=$rc)"; [ $rc -eq 1 ] && [ $v -gt 0 ] && verdict="CAUGHT"
